@@ -134,8 +134,7 @@ let () =
              let seg = if !opno < Array.length isegs then isegs.(!opno) else "" in
              let refused = String.length seg >= 9 && String.sub seg 0 9 = "plan:err " in
              let t = tarball_of ~extractor_rejected:refused m in
-             let manifest_ok = t.t_arts <> [] && nodupb (List.map (fun a -> a.a_path) t.t_arts) in   (* Manifest.Validate *)
-             observe !w (if t.t_sig_ok && t.t_members_ok && manifest_ok && t.t_digest_ok then "plan:ok" else "plan:err") "-"
+             observe !w (if plan_ok t then "plan:ok" else "plan:err") "-"   (* plan_ok: Model.v *)
            | _ ->
           let opv = match o with
             | "apply" :: r -> let m = kv r in
